@@ -51,14 +51,14 @@ pub fn scripted_module(script: Arc<Script>) -> RpcModule<Arc<Script>> {
 		};
 		let _ = ack.send(Ack::Started);
 		let mut pending = Some(pending);
-		let mut sinks: Vec<SubscriptionSink> = vec![];
-		loop {
+		// ---- stage 1, inside the handler future: the pending sink
+		let first_sink = loop {
 			let Some(cmd) = rx.recv().await else { return SubscriptionCloseResponse::None };
 			match cmd {
 				Cmd::Accept => match pending.take().expect("accept on a pending sink").accept().await {
 					Ok(s) => {
-						sinks.push(s);
 						let _ = ack.send(Ack::Ok);
+						break s;
 					}
 					Err(_) => {
 						let _ = ack.send(Ack::Err);
@@ -72,33 +72,51 @@ pub fn scripted_module(script: Arc<Script>) -> RpcModule<Arc<Script>> {
 					drop(pending.take());
 					let _ = ack.send(Ack::Ok);
 				}
-				Cmd::Clone => {
-					let c = sinks[0].clone();
-					sinks.push(c);
-					let _ = ack.send(Ack::Ok);
-				}
-				Cmd::DropSink => {
-					sinks.pop();
-					let _ = ack.send(Ack::Ok);
-				}
-				Cmd::Send(n) => {
-					let raw = serde_json::value::to_raw_value(&n).unwrap();
-					let r = sinks[0].send(SubscriptionMessage::from(raw)).await;
-					let _ = ack.send(if r.is_ok() { Ack::Ok } else { Ack::Err });
-				}
 				Cmd::IsClosed => {
-					let _ = ack.send(Ack::Closed(sinks.iter().map(|s| s.is_closed()).collect()));
+					let _ = ack.send(Ack::Closed(vec![]));
 				}
-				Cmd::Return(closing) => {
-					drop(sinks);
-					let _ = ack.send(Ack::Ok);
-					return if closing {
-						SubscriptionCloseResponse::Notif(SubscriptionMessage::from(serde_json::value::to_raw_value(&"bye").unwrap()))
-					} else {
-						SubscriptionCloseResponse::None
-					};
+				other => panic!("HARNESS: {other:?} before accept"),
+			}
+		};
+		// ---- stage 2: the sinks live in a keeper task of their own, so that they can outlive the handler future
+		let (ret_tx, ret_rx) = tokio::sync::oneshot::channel::<bool>();
+		tokio::spawn(async move {
+			let mut sinks: Vec<SubscriptionSink> = vec![first_sink];
+			let mut ret_tx = Some(ret_tx);
+			while let Some(cmd) = rx.recv().await {
+				match cmd {
+					Cmd::Clone => {
+						let c = sinks[0].clone();
+						sinks.push(c);
+						let _ = ack.send(Ack::Ok);
+					}
+					Cmd::DropSink => {
+						sinks.pop();
+						let _ = ack.send(Ack::Ok);
+					}
+					Cmd::Send(n) => {
+						let raw = serde_json::value::to_raw_value(&n).unwrap();
+						let r = sinks[0].send(SubscriptionMessage::from(raw)).await;
+						let _ = ack.send(if r.is_ok() { Ack::Ok } else { Ack::Err });
+					}
+					Cmd::IsClosed => {
+						let _ = ack.send(Ack::Closed(sinks.iter().map(|s| s.is_closed()).collect()));
+					}
+					Cmd::Return(closing) => {
+						// the handler future returns now; the sinks stay here
+						if let Some(t) = ret_tx.take() {
+							let _ = t.send(closing);
+						}
+						tokio::task::yield_now().await;
+						let _ = ack.send(Ack::Ok);
+					}
+					other => panic!("HARNESS: {other:?} after accept"),
 				}
 			}
+		});
+		match ret_rx.await {
+			Ok(true) => SubscriptionCloseResponse::Notif(SubscriptionMessage::from(serde_json::value::to_raw_value(&"bye").unwrap())),
+			_ => SubscriptionCloseResponse::None,
 		}
 	})
 	.unwrap();
@@ -257,12 +275,7 @@ impl World {
 			"clone" => match self.cmd(k, Cmd::Clone).await { Some(Ack::Ok) => "ok".into(), o => format!("odd-ack:{o:?}") },
 			"dropSink" => match self.cmd(k, Cmd::DropSink).await { Some(Ack::Ok) => "ok".into(), o => format!("odd-ack:{o:?}") },
 			"send" => match self.cmd(k, Cmd::Send(op["n"].as_u64().unwrap_or(0))).await { Some(Ack::Ok) => "ok".into(), Some(Ack::Err) => "err".into(), o => format!("odd-ack:{o:?}") },
-			"return" => {
-				let r = match self.cmd(k, Cmd::Return(op["closing"] == json!(true))).await { Some(Ack::Ok) => "ok".to_string(), o => format!("odd-ack:{o:?}") };
-				self.cmds.remove(&k);
-				self.acks.remove(&k);
-				r
-			}
+			"return" => match self.cmd(k, Cmd::Return(op["closing"] == json!(true))).await { Some(Ack::Ok) => "ok".to_string(), o => format!("odd-ack:{o:?}") },
 			"unsub" => {
 				let c = op["c"].as_u64().unwrap();
 				self.next_id += 1;
